@@ -8,6 +8,8 @@ mod c07;
 mod c10;
 mod c12;
 mod c13;
+mod c15;
+mod c16;
 mod c17;
 mod c19;
 mod c19b;
@@ -85,6 +87,8 @@ fn main() {
         "C10" => c10::run(tier),
         "C12" => c12::run(tier),
         "C13" => c13::run(tier),
+        "C15" => c15::run(tier),
+        "C16" => c16::run(tier),
         "C17" => c17::run(tier),
         "kat" => match kat::run_kats() {
             Ok(n) => {
